@@ -18,6 +18,7 @@
 -/
 import ScionTime.Model.F64
 import ScionTime.Model.Sync
+import ScionTime.Model.FreqDrift
 namespace ScionTime.MainCfg
 open ScionTime.F64
 
@@ -388,6 +389,32 @@ def toRunCfg (c : SyncConfig) (drift : Int64) (nRef nPeer : Nat) : Sync.Cfg :=
   { refImpact := c.referenceClockImpact, peerImpact := c.peerClockImpact,
     cutoff := Int64.ofInt c.peerClockCutoff, timeout := Int64.ofInt c.syncTimeout,
     interval := Int64.ofInt c.syncInterval, drift := drift, nRef := nRef, nPeer := nPeer }
+
+/-! ### from the configuration file to the arguments of `sync.Run`
+
+`runServer` / `runClient` (timeservice.go):
+```
+lclk := clocks.NewSystemClock(log, clockDrift(cfg))   // drift field = clockDrift(cfg).Seconds()
+syncCfg := syncConfig(cfg)
+go sync.Run(log, syncCfg, lclk, adj, refClocks, peerClocks)
+```
+and `Run` reads the clock through `clk.Drift(cfg.SyncInterval)` only (besides `Sleep`). -/
+
+/-- `clocks.NewSystemClock(log, d).Drift(interval)`: what `Run`'s two caps are computed from, for a
+    configured drift of `d` ns per second (0 = absent = `clocks.UnknownDrift`). -/
+def runDrift (clockDriftNs interval : Int) : Int :=
+  FreqDrift.drift (FreqDrift.clockDrift clockDriftNs) interval
+
+/-- the start-up configuration of `Run` as the binary assembles it from the six configuration
+    values (`clock_drift` and the five of `syncConfig`) and the numbers of clocks; `fatal` when
+    `clockDrift` refuses the file. -/
+def startCfg (s : SvcSync) (clockDriftCfg : F64) (nRef nPeer : Nat) : Res Sync.Cfg :=
+  match clockDrift clockDriftCfg with
+  | .ok d =>
+    let c := syncConfig s
+    .ok (toRunCfg c (Int64.ofInt (runDrift d c.syncInterval)) nRef nPeer)
+  | .fatal m => .fatal m
+  | .panic m => .panic m
 
 /-- keys of the TOML configuration file (struct tags of `svcConfig`) that carry the values
     above; `loadConfig` refuses unknown keys -/
